@@ -2,7 +2,7 @@
 from props import lfhtcommon as L, gpcommon as G
 
 ID = "C07"
-RULE = ("Same scenario as C05 weighted towards several threads targeting the same node with lookup+del, del of a named node, lookup+replace and "
+RULE = ("Three quarters of the programs are removal-race programs, one quarter resize-focused programs (explicit grow/shrink over several orders with concurrent readers, so bucket levels are released while traversals are positioned on them). Same scenario as C05 weighted towards several threads targeting the same node with lookup+del, del of a named node, lookup+replace and "
         "add_replace (1-2 keys); the unique winner waits a grace period (synchronize_rcu or call_rcu) and frees the node while other threads "
         "keep operating in the same bucket; explicit grow/shrink requests (multi-order shrinks free several bucket levels); final cds_lfht_destroy (must refuse a non-empty table). Oracle: "
         "per node at most one successful removal (others negative) via the linearizability specification and an ownership table; shadow heap: no "
@@ -10,6 +10,6 @@ RULE = ("Same scenario as C05 weighted towards several threads targeting the sam
         "removal attempts on one node overlapped, or a node was freed while other threads were still running operations. distinct = distinct case text.")
 ASSUMPTIONS = G.E1_ASSUMPTIONS + ["bounded: <=4 threads, <=7 ops per thread"]
 EXAMPLES = {"quick": 150, "thorough": 3000}
-example = L.make_example("owner")
+example = L.make_example(["owner", "owner", "owner", "resize"])
 judge = L.make_judge(lambda text, res: G.flag(res, 2) or (G.flag(res, 7) and G.flag(res, 0)))
 confirm = L.confirm
